@@ -305,8 +305,8 @@ def prepare(inst, m):
                 if k in _at:
                     try:
                         do_call(_inner, materialise(_inner), dict(_o))
-                    except (ValueError, ArithmeticError, TypeError):
-                        pass        # the inner problem's own business (rank-deficient data, ...): the user's F goes on
+                    except (ValueError, ArithmeticError, TypeError, UserAbort):
+                        pass        # the inner problem's own business (rank-deficient data, an F that gives up, ...): the outer F goes on
             F.hook = hook
     return m
 
@@ -332,7 +332,7 @@ VALID = {'maxiters': [1, 2, 3, 5, 8, 30, 100], 'abstol': [1e-7, 1e-3, 1e-10, 1e-
          'feastol': [1e-7, 1e-3, 1e-9, 1], 'refinement': [0, 1, 2], 'show_progress': [True, False],
          'kktreg': [0.0, 1e-9, 1e-6, 0], 'use_correction': [False, True], 'debug': [True, False]}
 INVALID = [('maxiters', 0), ('maxiters', -3), ('maxiters', 2.5), ('maxiters', 'ten'), ('feastol', -1.0), ('feastol', 0.0),
-           ('feastol', 'x'), ('abstol', 'x'), ('reltol', 'tiny'), ('refinement', -1), ('refinement', 1.5), ('kktreg', -1.0),
+           ('feastol', 'x'), ('abstol', 'x'), ('reltol', 'tiny'), ('refinement', -1), ('refinement', 1.5), ('refinement', 0.0), ('kktreg', -1.0),
            ('kktreg', 'a')]
 
 
